@@ -32,6 +32,9 @@ FAN = [
     "8 | io=accept:1,data:1:2,waitflag:s,close:1 ; main=observe:1:o1,setdata:1:d1,observe:1:o2,observe:1:o3,setflag:s,close:1 ; a=waitflag:s,unobserve:o2 ; b=waitflag:s,setdata:1:d9",
     "8 | io=accept:1,waitflag:s ; main=observe:1:o1,observe:1:o2,setdata:1:d1,setflag:s,stop ; a=waitflag:s,unobserve:o1,observe:1:o4",
     "8 | io=accept:1,close:1 ; main=sleep:1,observe:1:late,setdata:1:dl,sleep:2",
+    # registration changes made from INSIDE the global close callback take effect before the observer phase
+    "8 | io=accept:1,waitflag:s,close:1 ; main=observe:1:o1,observe:1:o2,observe:1:o3,setdata:1:d1,setflag:s ; gcb=unobserve:o2,observe:1:o4",
+    "8 | io=accept:1,accept:2,waitflag:s,close:1,close:2 ; main=observe:1:o1,observe:2:p1,setflag:s ; gcb=unobserve:o1,unobserve:p1,observe:2:p2 ; a=waitflag:s,observe:2:p3",
 ]
 
 LIFE = [
@@ -43,6 +46,13 @@ LIFE = [
     "udp | listen,peer:1,psend:1:10,peer:2,aclose:1,psend:2:5,psend:1:3,stop",
     "udp | listen,peer:1,windowconnect",
     "udp | listen,peer:1,peer:2,peer:3,aclose:2,psend:2:4,psend:3:1,wait:20",
+    # a reconnect-on-close handler: connects issued from inside close callbacks, also those fired while the engine drains
+    "tcp | listen,peer:1,peer:2,reconnect:4,pclose:1,wait:60,windowconnect",
+    "tcp | listen,reconnect:3,connect:self,aclose:1,wait:80,stop",
+    "udp | listen,peer:1,reconnect:3,aclose:1,wait:60,windowconnect",
+    # UDP: a second session to a peer that already has one (connect-via-listener); gauge sampled while both are open
+    "udp | listen,peer:1,via:1,psend:1:3,gauge,aclose:2,wait:40,gauge,aclose:1,wait:40,gauge",
+    "udp | listen,peer:1,peer:2,via:2,via:1,gauge,stop",
 ]
 
 
